@@ -212,6 +212,20 @@ func (f *c20Files) call(kind string, num int64, name string) {
 					fmt.Sprintf("%s: file %d has %d bytes (%s), its last line shows %s | %s", f.desc, f.fileNo, full, want, pf[0], pf[1]))
 			}
 		}
+		if kind == "S" && len(f.sizes) > 0 && f.sizes[0] > 0 {
+			// the position a data step stands for: the prefix found at the destination plus what was sent
+			full, pos := f.sizes[0], num
+			if f.pre > 0 {
+				pos += f.pre
+			}
+			if pos >= 0 && pos <= full {
+				wantPct := fmt.Sprintf("%d%%", (200*pos+full)/(2*full))
+				if wantTotal := c20SizeText(pos); pf[1] != wantTotal || pf[0] != wantPct {
+					c.violate("files:line-shows-wrong-position", "a progress line does not show the file's own position (prefix already present + bytes sent) of its own size",
+						fmt.Sprintf("%s: position %d of %d bytes is %s | %s, the line shows %s | %s", f.desc, pos, full, wantPct, wantTotal, pf[0], pf[1]))
+				}
+			}
+		}
 		f.c.c20PctRange(pf[0], f.desc)
 	}
 
